@@ -78,9 +78,16 @@ pub fn c01(r: &mut Rng, tier: &str) -> Vec<Case> {
             maybe_masked(r, &mut s, k);
             let mut c = Case::new(format!("{}/hl{}sp{}k{}", tagof(page, op), cls16(s.pair(H)), cls16(s.sp), k % 4));
             c.key = tagof(page, op);
+            let again = if k % 6 == 5 { Some(vary_one(r, &s, page)) } else { None };
             c.push(sbox(s), P_NONE);
             c.push(Cmd::X, p_regs());
             c.push(Cmd::D, p_mem());
+            if let Some(s2) = again {
+                // second execution on the same CPU object with one input changed
+                c.push(Cmd::SR(Box::new(s2)), P_NONE);
+                c.push(Cmd::X, p_regs());
+                c.push(Cmd::D, p_mem());
+            }
             cases.push(c);
         }
     }
@@ -142,8 +149,13 @@ pub fn c02(r: &mut Rng, tier: &str) -> Vec<Case> {
             maybe_masked(r, &mut s, k);
             let mut c = Case::new(format!("{}/f{}", tagof(page, op), s.regs[F] & 1));
             c.key = tagof(page, op);
+            let again = if k % 4 == 3 { Some(vary_one(r, &s, page)) } else { None };
             c.push(sbox(s), P_NONE);
             c.push(Cmd::X, Proj { fmask: 0xD7, mode: Mode::Flags, ..NONE });
+            if let Some(s2) = again {
+                c.push(Cmd::SR(Box::new(s2)), P_NONE);
+                c.push(Cmd::X, Proj { fmask: 0xD7, mode: Mode::Flags, ..NONE });
+            }
             cases.push(c);
         }
     }
@@ -200,10 +212,18 @@ pub fn c03(r: &mut Rng, tier: &str) -> Vec<Case> {
             maybe_masked(r, &mut s, k);
             let mut c = Case::new(format!("{}/pc{}sp{}f{}", tagof(page, op), cls16(s.pc), cls16(s.sp), k % 2));
             c.key = tagof(page, op);
+            let again = if k % 4 == 1 { Some(vary_one(r, &s, page)) } else { None };
             c.push(sbox(s), P_NONE);
             c.push(Cmd::X, Proj { pc: true, sp: true, ..NONE });
             if is_call_like(page, op) {
                 c.push(Cmd::D, p_mem());
+            }
+            if let Some(s2) = again {
+                c.push(Cmd::SR(Box::new(s2)), P_NONE);
+                c.push(Cmd::X, Proj { pc: true, sp: true, ..NONE });
+                if is_call_like(page, op) {
+                    c.push(Cmd::D, p_mem());
+                }
             }
             cases.push(c);
         }
@@ -294,6 +314,54 @@ pub fn c04(r: &mut Rng, tier: &str) -> Vec<Case> {
             let mut c = Case::new(format!("{}/f{:02X}", tagof(page, op), s.regs[F] & 0xC5));
             c.key = tagof(page, op);
             c.push(sbox(s), P_NONE);
+            c.push(Cmd::X, timing);
+            cases.push(c);
+        }
+    }
+    // the count of a row does not depend on what the same CPU object executed before it: every prefixed
+    // row after the row with the same last opcode byte on each other prefixed page, and every row after
+    // some unrelated rows
+    let pre = [Page::CB, Page::ED, Page::DD, Page::FD, Page::DDCB, Page::FDCB];
+    for (page, op) in all_rows() {
+        let mut prevs: Vec<(Page, u8)> = vec![];
+        if page != Page::Base {
+            for &q in &pre {
+                if q != page {
+                    prevs.push((q, op));
+                }
+            }
+        }
+        let extra = if quick(tier) { 2 } else { 12 };
+        for _ in 0..extra {
+            let q = if r.below(3) == 0 { Page::Base } else { pre[r.below(6) as usize] };
+            let mut o = r.u8();
+            if q == Page::Base && matches!(o, 0xCB | 0xDD | 0xED | 0xFD | 0x76) {
+                o = 0x00;
+            }
+            prevs.push((q, o));
+        }
+        for (j, (q, o)) in prevs.into_iter().enumerate() {
+            let mut s0 = state_for(r, q, o);
+            s0.halt = false;
+            s0.int = None;
+            s0.nmi = false;
+            if is_block_repeat(q, o) {
+                s0.set_pair(B, 1);
+            }
+            let mut s = state_for(r, page, op);
+            s.top = s0.top;
+            if is_block_repeat(page, op) {
+                s.set_pair(B, [1u16, 2, 3][j % 3]);
+                if op & 1 == 1 {
+                    s.regs[A] = 0xA5;
+                    s.seed = 0;
+                }
+            }
+            let mut c = Case::new(format!("{}/after{}", tagof(page, op), if q == Page::Base { 0 } else { 1 }));
+            c.key = tagof(page, op);
+            c.push(sbox(s0), P_NONE);
+            c.push(Cmd::X, P_NONE);
+            c.push(Cmd::SR(Box::new(s)), P_NONE);
             c.push(Cmd::X, timing);
             cases.push(c);
         }
@@ -770,6 +838,58 @@ pub fn c08(r: &mut Rng, tier: &str) -> Vec<Case> {
             cases.push(c);
         }
     }
+    // "outside ROM": a window declared, moved, shrunk or re-declared through the public call; stores
+    // around both ends of the present and of every earlier window, and around the top address
+    let nw = if quick(tier) { 400 } else { 8000 };
+    for k in 0..nw {
+        let top = tops[k % tops.len()];
+        let mut s = St::default();
+        s.top = top;
+        s.seed = SEEDS[1 + k % 5];
+        let mut c = Case::new(format!("window/t{}/{}", cls16(top), k % 8));
+        c.key = "bus".into();
+        c.push(sbox(s), P_NONE);
+        let mut marks: Vec<u16> = vec![0, top, top.wrapping_add(1), 0xFFFF];
+        for step in 0..4 {
+            let (a, b) = match (k / 10 + step) % 5 {
+                0 => {
+                    let a = top.wrapping_sub(r.u16() & 0x3FF);
+                    (a, top) // window reaching the top address
+                }
+                1 => {
+                    let a = r.u16();
+                    (a, 0xFFFF) // window reaching the end of the address space
+                }
+                2 => {
+                    let a = (r.u16() as u32 % (top as u32 + 1)) as u16;
+                    (a, a.wrapping_add(r.u16() & 0xFF))
+                }
+                3 => (0, r.u16() & 0x1FF),
+                _ => {
+                    let a = r.u16();
+                    (a, a.wrapping_add(r.u16() & 0x7FF))
+                }
+            };
+            c.push(Cmd::ROM(a, b), P_NONE);
+            for m in [a, b] {
+                marks.push(m);
+            }
+            for (j, &m) in marks.clone().iter().enumerate() {
+                for dlt in [-2i32, -1, 0, 1, 2] {
+                    let x = (m as i32 + dlt) as u16;
+                    if (j + step) % 2 == 0 {
+                        c.push(Cmd::WB(x, 0x5A ^ (j as u8) ^ ((step as u8) << 4)), p_mem());
+                        c.push(Cmd::RB(x), p_mem());
+                    } else {
+                        c.push(Cmd::WW(x, 0xA5C3 ^ ((j as u16) << 3) ^ step as u16), p_mem());
+                        c.push(Cmd::RW(x), p_mem());
+                    }
+                }
+            }
+            c.push(Cmd::D, p_mem());
+        }
+        cases.push(c);
+    }
     if !quick(tier) {
         // every size at the boundary addresses
         for top in 0..=0xFFFFu32 {
@@ -904,6 +1024,52 @@ pub fn c10(r: &mut Rng, tier: &str) -> Vec<Case> {
                 let d2 = c.push(Cmd::D, P_NONE);
                 c.rels.push(Rel { a: x1, b: x2, proj: pj, swap_xy: true, what: "FD form = DD form with IX and IY exchanged" });
                 c.rels.push(Rel { a: d1, b: d2, proj: p_mem(), swap_xy: false, what: "same memory effect" });
+                // the same pair once more on the same CPU objects, at the same address with the same index
+                // registers, after one thing changed (displacement byte, last operand byte, the cell addressed, a flag)
+                if k % 2 == 1 {
+                    let mut s2 = match &c.cmds[0] { Cmd::S(b) => (**b).clone(), _ => unreachable!() };
+                    let pc = s2.pc;
+                    let ok = match k % 8 {
+                        1 => {
+                            let d = s2.peek(pc.wrapping_add(2)).wrapping_add(1 + (r.u8() & 0x3F));
+                            s2.poke(pc.wrapping_add(2), &[d]);
+                            true
+                        }
+                        3 => {
+                            let a = s2.pair(IXH).wrapping_add(s2.peek(pc.wrapping_add(2)) as i8 as i16 as u16);
+                            let v = s2.peek(a) ^ 0xFF;
+                            s2.poke(a, &[v]);
+                            true
+                        }
+                        5 => {
+                            s2.regs[F] ^= 0xFF;
+                            s2.regs[A] = s2.regs[A].wrapping_add(0x55);
+                            true
+                        }
+                        _ => {
+                            let v = s2.peek(pc.wrapping_add(3)).wrapping_add(1);
+                            if pa == Page::DD { s2.poke(pc.wrapping_add(3), &[v]); }
+                            true
+                        }
+                    };
+                    let d = s2.peek(pc.wrapping_add(2)) as i8 as i16 as u16;
+                    let nn = s2.peek(pc.wrapping_add(2)) as u16 | (s2.peek(pc.wrapping_add(3)) as u16) << 8;
+                    let near = |a: u16| a.wrapping_sub(pc).wrapping_add(2) < 5;
+                    if ok && !(near(s2.pair(IXH).wrapping_add(d)) || near(s2.sp) || near(s2.sp.wrapping_sub(2)) || near(nn)) {
+                        let mut t2 = s2.clone();
+                        t2.set_pair(IXH, iy);
+                        t2.set_pair(IYH, ix);
+                        t2.poke(pc, &[b0]);
+                        c.push(Cmd::SR(Box::new(s2)), P_NONE);
+                        let x3 = c.push(Cmd::X, P_NONE);
+                        let d3 = c.push(Cmd::D, P_NONE);
+                        c.push(Cmd::SR(Box::new(t2)), P_NONE);
+                        let x4 = c.push(Cmd::X, P_NONE);
+                        let d4 = c.push(Cmd::D, P_NONE);
+                        c.rels.push(Rel { a: x3, b: x4, proj: pj, swap_xy: true, what: "FD form = DD form with IX and IY exchanged (second execution)" });
+                        c.rels.push(Rel { a: d3, b: d4, proj: p_mem(), swap_xy: false, what: "same memory effect (second execution)" });
+                    }
+                }
                 cases.push(c);
             }
         }
@@ -1231,6 +1397,8 @@ pub fn c12(r: &mut Rng, tier: &str) -> Vec<Case> {
             s.iff2 = k % 2 == 0;
             s.im = (k % 3) as u8;
             s.halt = k % 7 == 6;
+            // a non-maskable request pending in the same step: the masked request must not change how it is served
+            s.nmi = k % 4 == 3;
             s.dbg = [k % 2 == 1, false, false, false];
             let b = bytes[(k + op as usize) % bytes.len()];
             let mut t = s.clone();
@@ -1280,6 +1448,9 @@ pub fn c15(r: &mut Rng, tier: &str) -> Vec<Case> {
                     s.iff1 = false;
                     s.int = Some(if k % 8 == 1 { r.pick(&RST_OPS) } else { r.u8() });
                 }
+                if k % 4 == 3 {
+                    context_bytes(r, &mut s, page, op);
+                }
                 let pc = s.pc;
                 let mut c = Case::new(format!("{}/pc{}a{}", tagof(page, op), cls16(pc), (k % 4 == 2) as u8));
                 c.key = tagof(page, op);
@@ -1312,11 +1483,47 @@ pub fn c16(r: &mut Rng, tier: &str) -> Vec<Case> {
                 if k % 5 == 3 {
                     s = with_ctl(r, s);
                 }
+                if k % 4 == 1 {
+                    context_bytes(r, &mut s, page, op);
+                }
                 let pc = s.pc;
                 let mut c = Case::new(format!("{}/o{}pc{}", tagof(page, op), k % 6, cls16(pc)));
                 c.key = tagof(page, op);
-                c.push(sbox(s), P_NONE);
+                c.push(sbox(s.clone()), P_NONE);
                 c.push(Cmd::DA(pc), p_mem());
+                if k % 2 == 0 {
+                    // the text follows the present state: ask again after changing one thing at a time
+                    // (one register pair, an operand byte, the opcode byte), same CPU object, same address
+                    let mut t = s.clone();
+                    for step in 0..6 {
+                        match (k / 2 + step) % 8 {
+                            0 => t.set_pair(B, v16(r)),
+                            1 => t.set_pair(D, v16(r)),
+                            2 => t.set_pair(H, v16(r)),
+                            3 => {
+                                t.regs[IXH] = r.u8();
+                                t.regs[IXL] = r.u8();
+                            }
+                            4 => {
+                                t.regs[IYH] = r.u8();
+                                t.regs[IYL] = r.u8();
+                            }
+                            5 => t.sp = v16(r),
+                            6 => {
+                                let a = pc.wrapping_add(1 + r.below(3) as u16);
+                                c.push(Cmd::WB(a, r.u8()), P_NONE);
+                            }
+                            _ => {
+                                let other = encode(page, op.wrapping_add(1 + r.below(7) as u8), ob[step % 6], v8(r), v8(r));
+                                for (i, b) in other.iter().enumerate() {
+                                    c.push(Cmd::WB(pc.wrapping_add(i as u16), *b), P_NONE);
+                                }
+                            }
+                        }
+                        c.push(Cmd::P(Box::new(t.clone())), P_NONE);
+                        c.push(Cmd::DA(pc), p_mem());
+                    }
+                }
                 cases.push(c);
             }
         }
@@ -1390,6 +1597,40 @@ pub fn c17(r: &mut Rng, tier: &str) -> Vec<Case> {
             c.rels.push(Rel { a: d2, b: d3, proj: p_mem(), swap_xy: false, what: "outcome independent of earlier history (memory)" });
             cases.push(c);
         }
+    }
+    // (c) independent of wall-clock time: the same timed run once at full speed and once with the host
+    // stalling (longer than a slice) at various points; the architectural outcome and the calls at which a
+    // sleep is requested must coincide (the requested amount is clock-dependent and not compared)
+    let nt = if quick(tier) { 24 } else { 200 };
+    for k in 0..nt {
+        let mut s = rand_state(r);
+        s.seed = SEEDS[1 + k % 5];
+        s.smax = [40u32, 200, 1000][k % 3];
+        s.sdur = [1u32, 2, 4][(k / 3) % 3];
+        s.scur = 0;
+        let steps = 120;
+        let stall_at: Vec<usize> = (0..4).map(|_| r.below(steps as u64) as usize).collect();
+        let mut c = Case::new(format!("stall/b{}d{}", s.smax, s.sdur));
+        c.key = "stall".into();
+        let pj = Proj { r: false, dbg: 0, cyc: false, slice: true, ..FULL };
+        let mut runs: Vec<Vec<usize>> = vec![];
+        for twin in 0..2 {
+            c.push(Cmd::SN(Box::new(s.clone())), P_NONE);
+            let mut ix = vec![];
+            for j in 0..steps {
+                if twin == 1 && stall_at.contains(&j) {
+                    c.push(Cmd::Nap(s.sdur + 2), P_NONE);
+                }
+                ix.push(c.push(Cmd::T, Proj { slice: false, ..NONE }));
+            }
+            ix.push(c.push(Cmd::D, P_NONE));
+            runs.push(ix);
+        }
+        for j in 0..steps {
+            c.rels.push(Rel { a: runs[0][j], b: runs[1][j], proj: pj, swap_xy: false, what: "timed step independent of host time" });
+        }
+        c.rels.push(Rel { a: runs[0][steps], b: runs[1][steps], proj: p_mem(), swap_xy: false, what: "timed run independent of host time (memory)" });
+        cases.push(c);
     }
     cases
 }
